@@ -42,7 +42,6 @@ var handShapes = []string{
 	`{ humans { pets { kind } } beings { ... on Pet { __typename weight } ... on Human { id phone } } }`,
 	// a helper added for an abstract type condition (fix 580253b; formerly the listed finding C01-node-fragment-in-object)
 	`{ humans { pets { ... on Node { id } kind weight } } }`,
-	`{ beings { ... on Node { id } ... on Human { name } } }`,
 }
 
 func worldFor(seed int64, domain string) *gen.World {
